@@ -793,35 +793,127 @@ fn refit(inp: &str, out: &mut Out, run: &mut i64) {
             .map(|r| r.as_array().unwrap().iter().map(|a| a.as_i64().unwrap() as f64).collect())
             .collect();
         let k = v["k"].as_u64().unwrap() as usize;
-        let xc = x.clone();
-        let res = watchdog(300, move || {
-            let mut seen: std::collections::BTreeMap<String, (usize, usize, FitOut)> = std::collections::BTreeMap::new();
-            for i in 0..reps {
-                let mi = [1usize, 2, 3, 100][i % 4];
-                let o = fit_direct!(f64, &xc, k, mi);
-                // (probe rows are a function of the outcome, so they are attached to every distinct one)
-                let key = format!("{}|{}|{:?}|{:?}|{:?}|{:?}", mi, o.status, o.y, o.size,
-                                  o.centroids.iter().map(|c| c.iter().map(|v| v.to_bits()).collect::<Vec<u64>>()).collect::<Vec<_>>(),
-                                  o.pred.iter().map(|v| v.to_bits()).collect::<Vec<u64>>());
-                seen.entry(key).or_insert((mi, 0, o)).1 += 1;
-            }
-            seen
-        });
-        match res {
-            Some(Ok(seen)) => {
-                for (_, (mi, mult, o)) in seen {
-                    *run += 1;
-                    let mut e = fit_event(*run, "refit", 64, true, &x, &x, k, mi, &o);
-                    e["mult"] = json!(mult);
-                    out.emit(e);
-                }
-            }
-            _ => {
+        let cls = v["cls"].as_str().unwrap_or("refit").to_string();
+        refit_one(&x, k, reps, &cls, out, run);
+    }
+}
+
+/// `reps` fits of one lattice data set (max_iter cycling through 1, 2, 3, 100), each followed
+/// by predict on the training rows (+ probe rows after an empty cluster); one event per distinct
+/// (max_iter, outcome) with its multiplicity.
+fn refit_one(x: &Rows, k: usize, reps: usize, cls: &str, out: &mut Out, run: &mut i64) {
+    let xc = x.clone();
+    let res = watchdog(300, move || {
+        let mut seen: std::collections::BTreeMap<String, (usize, usize, FitOut)> = std::collections::BTreeMap::new();
+        for i in 0..reps {
+            let mi = [1usize, 2, 3, 100][i % 4];
+            let o = fit_direct!(f64, &xc, k, mi);
+            // (probe rows are a function of the outcome, so they are attached to every distinct one)
+            let key = format!("{}|{}|{:?}|{:?}|{:?}|{:?}", mi, o.status, o.y, o.size,
+                              o.centroids.iter().map(|c| c.iter().map(|v| v.to_bits()).collect::<Vec<u64>>()).collect::<Vec<_>>(),
+                              o.pred.iter().map(|v| v.to_bits()).collect::<Vec<u64>>());
+            seen.entry(key).or_insert((mi, 0, o)).1 += 1;
+        }
+        seen
+    });
+    match res {
+        Some(Ok(seen)) => {
+            for (_, (mi, mult, o)) in seen {
                 *run += 1;
-                let mut e = fit_event(*run, "refit", 64, true, &x, &x, k, 1, &empty_out("timeout"));
-                e["mult"] = json!(reps);
+                let mut e = fit_event(*run, cls, 64, true, x, x, k, mi, &o);
+                e["mult"] = json!(mult);
                 out.emit(e);
             }
+        }
+        _ => {
+            *run += 1;
+            let mut e = fit_event(*run, cls, 64, true, x, x, k, 1, &empty_out("timeout"));
+            e["mult"] = json!(reps);
+            out.emit(e);
+        }
+    }
+}
+
+/// all integer points of the simplex layer x1 + .. + xd = total, xi >= 0
+fn simplex_layer(d: usize, total: i64) -> Vec<Vec<i64>> {
+    if d == 1 {
+        return vec![vec![total]];
+    }
+    let mut v = Vec::new();
+    for a in 0..=total {
+        for mut rest in simplex_layer(d - 1, total - a) {
+            let mut row = vec![a];
+            row.append(&mut rest);
+            v.push(row);
+        }
+    }
+    v
+}
+
+fn permutations(items: &[i64]) -> Vec<Vec<i64>> {
+    if items.len() <= 1 {
+        return vec![items.to_vec()];
+    }
+    let mut v: Vec<Vec<i64>> = Vec::new();
+    for i in 0..items.len() {
+        let mut rest = items.to_vec();
+        let a = rest.remove(i);
+        for mut p in permutations(&rest) {
+            let mut row = vec![a];
+            row.append(&mut p);
+            if !v.contains(&row) {
+                v.push(row);
+            }
+        }
+    }
+    v
+}
+
+/// "composition" families: lattice rows that all have the same coordinate total (integer
+/// compositions / percentages), permutations of one multiset of coordinates, and small full grids
+/// (which contain the anti-diagonal pairs (a,b)/(b,a)), in 2..4 dimensions.  On such data a Lloyd
+/// sweep can exchange members of a cluster without changing its count or its coordinate total.
+/// Each data set is refitted many times (the seeding is unseeded).
+fn gen_comp(out: &mut Out, run: &mut i64) {
+    let th = thorough();
+    let mut r = rng(1205);
+    let reps = if th { 2400 } else { 400 };
+    let mut sets: Vec<Rows> = Vec::new();
+    let fl = |v: Vec<Vec<i64>>| -> Rows { v.into_iter().map(|r| r.into_iter().map(|a| a as f64).collect()).collect() };
+    // full layers
+    sets.push(fl(simplex_layer(3, 4)));
+    sets.push(fl(simplex_layer(2, 7)));
+    sets.push(fl(simplex_layer(4, 3)));
+    // permutations of a multiset
+    sets.push(fl(permutations(&[0, 1, 3])));
+    sets.push(fl(permutations(&[1, 2, 2, 4])));
+    // small full grid (anti-diagonal pairs)
+    let g = r.gen_range(3..=4i64);
+    let mut grid = Vec::new();
+    for a in 0..g {
+        for b in 0..g {
+            grid.push(vec![a, b]);
+        }
+    }
+    sets.push(fl(grid));
+    // random compositions with duplicates, like percentages: n rows, d parts, total S
+    let extra = if th { 12 } else { 4 };
+    for _ in 0..extra {
+        let d = r.gen_range(2..=4usize);
+        let total = r.gen_range(4..=10i64);
+        let layer = simplex_layer(d, total);
+        let n = r.gen_range(8..=28usize);
+        let rows: Vec<Vec<i64>> = (0..n).map(|_| layer[r.gen_range(0..layer.len())].clone()).collect();
+        sets.push(fl(rows));
+    }
+    for x in sets.iter() {
+        let dist = distinct_rows(x);
+        if dist < 2 {
+            continue;
+        }
+        let kmax = 4usize.min(dist);
+        for k in 2..=kmax {
+            refit_one(x, k, reps, "comp", out, run);
         }
     }
 }
@@ -1011,6 +1103,12 @@ fn main() {
         "replay-spec" => {
             let mut out = Out::create(arg(args, 2));
             replay_spec(path, &mut out, &mut run);
+            let n = out.finish();
+            println!("events={} runs={} skipped={}", n, run, skipped);
+        }
+        "gen-comp" => {
+            let mut out = Out::create(path);
+            gen_comp(&mut out, &mut run);
             let n = out.finish();
             println!("events={} runs={} skipped={}", n, run, skipped);
         }
